@@ -11,10 +11,28 @@ def conds_state_clone : List String := [
   ]
 
 def stmts_state_clone : List String := [
+   "{",
+   "if s == nil {",
+   "return &state{",
+   "path: newPath(),",
+   "conns: make(map[*grpc.ClientConn]connList),",
+   "handlers: make(map[string][]*handler),",
+   "}",
+   "}",
    "conns := make(map[*grpc.ClientConn]connList)",
+   "for conn, cl := range s.conns {",
    "conns[conn] = cl",
+   "}",
    "handlers := make(map[string][]*handler)",
-   "handlers[method] = hds"
+   "for method, hds := range s.handlers {",
+   "handlers[method] = hds",
+   "}",
+   "return &state{",
+   "path: s.path.clone(),",
+   "conns: conns,",
+   "handlers: handlers,",
+   "}",
+   "}"
   ]
 
 def conds_path_clone : List String := [
@@ -28,12 +46,28 @@ def conds_path_clone : List String := [
   ]
 
 def stmts_path_clone : List String := [
+   "{",
    "pc := newPath()",
+   "if p == nil {",
+   "return pc",
+   "}",
+   "for k, s := range p.segments {",
    "pc.segments[k] = s.clone()",
+   "}",
    "pc.variables = make(variables, len(p.variables))",
-   "pc.variables[i] = &variable{ name: v.name, toks: v.toks, next: v.next.clone(), }",
+   "for i, v := range p.variables {",
+   "pc.variables[i] = &variable{",
+   "name: v.name,",
+   "toks: v.toks,",
+   "next: v.next.clone(),",
+   "}",
+   "}",
+   "for k, m := range p.methods {",
    "pc.methods[k] = m",
-   "pc.methodAll = p.methodAll"
+   "}",
+   "pc.methodAll = p.methodAll",
+   "return pc",
+   "}"
   ]
 
 def conds_state_removeHandler : List String := [
@@ -48,14 +82,29 @@ def conds_state_removeHandler : List String := [
   ]
 
 def stmts_state_removeHandler : List String := [
+   "{",
    "cl, ok := s.conns[cc]",
+   "if !ok {",
+   "return ok",
+   "}",
+   "for _, hd := range cl.handlers {",
    "name := hd.method",
    "var hds []*handler",
+   "for _, mhd := range s.handlers[name] {",
+   "if mhd != hd {",
    "hds = append(hds, mhd)",
+   "}",
+   "}",
+   "if len(hds) == 0 {",
    "delete(s.handlers, name)",
    "s.path.delRule(name)",
+   "} else {",
    "s.handlers[name] = hds",
-   "delete(s.conns, cc)"
+   "}",
+   "}",
+   "delete(s.conns, cc)",
+   "return ok",
+   "}"
   ]
 
 def conds_state_appendHandler : List String := [
@@ -71,14 +120,33 @@ def conds_state_appendHandler : List String := [
   ]
 
 def stmts_state_appendHandler : List String := [
-   "implicitRule := &annotations.HttpRule{ Pattern: &annotations.HttpRule_Custom{ Custom: &annotations.CustomHttpPattern{ Kind: \"*\", Path: h.method, }, }, Body: \"*\", }",
-   "err := s.path.addRule(implicitRule, desc, h.method)",
+   "{",
+   "implicitRule := &annotations.HttpRule{",
+   "Pattern: &annotations.HttpRule_Custom{",
+   "Custom: &annotations.CustomHttpPattern{",
+   "Kind: \"*\",",
+   "Path: h.method,",
+   "},",
+   "},",
+   "Body: \"*\",",
+   "}",
+   "if err := s.path.addRule(implicitRule, desc, h.method); err != nil {",
    "panic(fmt.Sprintf(\"bug: %v\", err))",
+   "}",
    "name := string(desc.FullName())",
-   "err := s.path.addRule(rule, desc, h.method)",
-   "rule := getExtensionHTTP(desc.Options())",
-   "err := s.path.addRule(rule, desc, h.method)",
-   "s.handlers[h.method] = append(s.handlers[h.method], h)"
+   "for _, rule := range opts.httprules.getRules(name) {",
+   "if err := s.path.addRule(rule, desc, h.method); err != nil {",
+   "return fmt.Errorf(\"[%s] invalid ServiceConfig.http rule %s: %w\", desc.FullName(), rule.String(), err)",
+   "}",
+   "}",
+   "if rule := getExtensionHTTP(desc.Options()); rule != nil {",
+   "if err := s.path.addRule(rule, desc, h.method); err != nil {",
+   "return fmt.Errorf(\"[%s] invalid rule %s: %w\", desc.FullName(), rule.String(), err)",
+   "}",
+   "}",
+   "s.handlers[h.method] = append(s.handlers[h.method], h)",
+   "return nil",
+   "}"
   ]
 
 def conds_Mux_registerService : List String := [
@@ -109,31 +177,75 @@ def conds_Mux_registerService : List String := [
   ]
 
 def stmts_Mux_registerService : List String := [
+   "{",
    "m.mu.Lock()",
    "defer m.mu.Unlock()",
    "s := m.loadState().clone()",
    "d, err := m.opts.files.FindDescriptorByName(protoreflect.FullName(gsd.ServiceName))",
+   "if err != nil {",
+   "return err",
+   "}",
    "sd, ok := d.(protoreflect.ServiceDescriptor)",
+   "if !ok {",
+   "return fmt.Errorf(\"invalid method descriptor %T\", d)",
+   "}",
    "mds := sd.Methods()",
-   "findMethod := func(…)",
-   "func-literal",
+   "findMethod := func(methodName string) (protoreflect.MethodDescriptor, error) {",
    "md := mds.ByName(protoreflect.Name(methodName))",
+   "if md == nil {",
+   "return nil, fmt.Errorf(\"missing method descriptor for %v\", methodName)",
+   "}",
+   "return md, nil",
+   "}",
+   "for i := range gsd.Methods {",
    "d := &gsd.Methods[i]",
    "method := \"/\" + gsd.ServiceName + \"/\" + d.MethodName",
    "md, err := findMethod(d.MethodName)",
-   "h := &handler{ method: method, desc: md, handler: func(…)",
-   "func-literal",
+   "if err != nil {",
+   "return err",
+   "}",
+   "h := &handler{",
+   "method: method,",
+   "desc: md,",
+   "handler: func(opts *muxOptions, stream grpc.ServerStream) error {",
    "ctx := stream.Context()",
    "reply, err := d.Handler(ss, ctx, stream.RecvMsg, opts.unaryInterceptor)",
-   "err := s.appendHandler(m.opts, md, h)",
+   "if err != nil {",
+   "return err",
+   "}",
+   "return stream.SendMsg(reply)",
+   "},",
+   "}",
+   "if err := s.appendHandler(m.opts, md, h); err != nil {",
+   "return err",
+   "}",
+   "}",
+   "for i := range gsd.Streams {",
    "d := &gsd.Streams[i]",
    "method := \"/\" + gsd.ServiceName + \"/\" + d.StreamName",
    "md, err := findMethod(d.StreamName)",
-   "h := &handler{ method: method, desc: md, handler: func(…)",
-   "func-literal",
-   "info := &grpc.StreamServerInfo{ FullMethod: method, IsClientStream: d.ClientStreams, IsServerStream: d.ServerStreams, }",
-   "err := s.appendHandler(m.opts, md, h)",
-   "m.storeState(s)"
+   "if err != nil {",
+   "return err",
+   "}",
+   "h := &handler{",
+   "method: method,",
+   "desc: md,",
+   "handler: func(opts *muxOptions, stream grpc.ServerStream) error {",
+   "info := &grpc.StreamServerInfo{",
+   "FullMethod: method,",
+   "IsClientStream: d.ClientStreams,",
+   "IsServerStream: d.ServerStreams,",
+   "}",
+   "return opts.stream(ss, stream, info, d.Handler)",
+   "},",
+   "}",
+   "if err := s.appendHandler(m.opts, md, h); err != nil {",
+   "return err",
+   "}",
+   "}",
+   "m.storeState(s)",
+   "return nil",
+   "}"
   ]
 
 def conds_Mux_RegisterConn : List String := [
@@ -147,13 +259,21 @@ def conds_Mux_RegisterConn : List String := [
   ]
 
 def stmts_Mux_RegisterConn : List String := [
+   "{",
    "c := rpb.NewServerReflectionClient(cc)",
    "stream, err := c.ServerReflectionInfo(ctx, grpc.WaitForReady(true))",
+   "if err != nil {",
+   "return err",
+   "}",
    "m.mu.Lock()",
    "defer m.mu.Unlock()",
    "s := m.loadState().clone()",
-   "err := s.addConnHandler(m.opts, cc, stream)",
-   "m.storeState(s)"
+   "if err := s.addConnHandler(m.opts, cc, stream); err != nil {",
+   "return err",
+   "}",
+   "m.storeState(s)",
+   "return stream.CloseSend()",
+   "}"
   ]
 
 def conds_Mux_DropConn : List String := [
@@ -164,11 +284,16 @@ def conds_Mux_DropConn : List String := [
   ]
 
 def stmts_Mux_DropConn : List String := [
+   "{",
    "m.mu.Lock()",
    "defer m.mu.Unlock()",
    "s := m.loadState().clone()",
    "ok := s.removeHandler(cc)",
-   "m.storeState(s)"
+   "if ok {",
+   "m.storeState(s)",
+   "}",
+   "return ok",
+   "}"
   ]
 
 def conds_Mux_loadState : List String := [
